@@ -19,7 +19,8 @@ LEVEL = 'exploration'
 RULE = ('Hypothesis strategy over simnet cases (topology {edge, chain, tee-rejoin} x subscription spec x payload kind x outputs_jpg x delay class up to '
         '400 ms x <= 3 kill/stop + restart events on any filter x flush/discard of queued requests). Non-trivial = >= 3 sets delivered and at least one of: '
         'a request reached the publisher after it had advanced past the requested id (stale/duplicate), a restart/reconnect happened, a hidden topic was '
-        'published. Distinct = distinct case value.')
+        'published. Distinct = distinct case value.'
+        " Also: topology 'join' (independent sources, late joiner), deferred (callable) relay results incl. deferred None, a kill of the source aimed right after a skipped frame; oracle also demands strictly increasing message ids of successive sets.")
 ASSUMPTIONS = ['socket model of DESIGN.md section 3.3', 'payload equality is judged on Frame content after MQ decoding at the consumer']
 BUDGET = {'quick': 45, 'thorough': 900}
 
